@@ -6,7 +6,7 @@
    by the implementation oracle only. *)
 From Coq Require Import Reals List.
 From Coquelicot Require Import Coquelicot.
-From AG Require Import RealPrelude ScalarRules VSpace VSpaceProof Select.
+From AG Require Import RealPrelude ScalarRules VSpace VSpaceProof Select Stats StatsProof.
 From AGGen Require Import GenRules.
 Local Open Scope R_scope.
 
@@ -70,3 +70,14 @@ Theorem C02_selection_jvp_is_linear_part :
       = VSpaceProof.vadd K kadd (Select.sapply K k0 kmul sel consts x) (Select.sgather K k0 kmul sel v).
 Proof. exact Select.sapply_affine. Qed.
 Print Assumptions C02_selection_jvp_is_linear_part.
+
+(* forward rules of np.var / np.std / np.prod on one fibre (any length): the derivative of t |-> f(x + t v) at 0 *)
+Theorem C02_var_std_prod_jvp_exact :
+  (forall x v d, length x = length v -> x <> nil -> StatsProof.rdenom d x <> 0 ->
+     is_derive (fun t => StatsProof.rvar d (StatsProof.line x v t)) 0 (StatsProof.rvar_jvp d x v))
+  /\ (forall x v d, length x = length v -> x <> nil -> StatsProof.rdenom d x <> 0 -> 0 < StatsProof.rvar d x ->
+     is_derive (fun t => sqrt (StatsProof.rvar d (StatsProof.line x v t))) 0 (StatsProof.rstd_jvp d x v (sqrt (StatsProof.rvar d x))))
+  /\ (forall x v, length x = length v -> List.Forall (fun a => a <> 0) x ->
+     is_derive (fun t => StatsProof.rprod (StatsProof.line x v t)) 0 (StatsProof.rprod_jvp x v (StatsProof.rprod x))).
+Proof. exact (conj StatsProof.var_jvp_exact (conj StatsProof.std_jvp_exact StatsProof.prod_jvp_exact)). Qed.
+Print Assumptions C02_var_std_prod_jvp_exact.
